@@ -84,7 +84,7 @@ impl Runner {
         self.viol.push(Violation { prop: prop.to_string(), what });
     }
 
-    fn record(&mut self, op: &Op, ex: &Exec) {
+    pub fn record(&mut self, op: &Op, ex: &Exec) {
         self.ops.push((!self.prefix.is_empty(), op.clone()));
         self.annot.push(format!("{}{}", self.prefix, ex.annot));
         for l in &ex.out {
@@ -185,7 +185,7 @@ impl Runner {
                 }
                 ex.outcome
             }
-            Op::State | Op::Dir => {
+            Op::State | Op::Dir | Op::Close | Op::Snapshot | Op::Restore | Op::Poke { .. } | Op::SetLenFile { .. } | Op::RmFile(_) | Op::CopyFile { .. } | Op::CopyBlock { .. } => {
                 let ex = self.real.exec(op);
                 self.record(op, &ex);
                 Outcome::None
